@@ -198,3 +198,36 @@ Proof.
   - right. right. left. reflexivity.
   - left. exists nv_h1. eexists. split; [left; reflexivity|]. split; [vm_compute; reflexivity|]. vm_compute. tauto.
 Qed.
+
+(* non-vacuity for adversary-BUILT envelopes (the harness's construction grammar): an outsider holding only the
+   ephemeral keys 200000, 200001 wraps its own content key with ECDH-ES for a decoy (key 7) and the victim (key 2),
+   names the honest key 1 in skid, labels the decoy entry ECDH-1PU.  The envelope satisfies the theorems'
+   hypothesis and is rejected; the single-recipient ECDH-ES envelope without skid whose apu is key 1's id is
+   accepted WITHOUT a sender. *)
+Definition built_cek : term := cek_of (mkrnd 200000 200050 200051).
+Definition built_mixed : jwe :=
+  reenc_jwe built_cek 888
+    (mkjwe (Some (mkphdr (Some A256CBC512) (Some (KDidKey 1)) None None None None None 0))
+       [mkrcp (Some (mkrhdr (Some (KDidKey 7)) (Some PU_A256KW) (Some (Pub 200000)) (Some (apu_es (Pub 200000))) None))
+              (Wrap (kek_es ES_A256KW (dh 200000 7) (apu_es (Pub 200000)) (Tup [])) built_cek);
+        mkrcp (Some (mkrhdr (Some (KDidKey 2)) (Some ES_A256KW) (Some (Pub 200001)) (Some (apu_es (Pub 200001))) None))
+              (Wrap (kek_es ES_A256KW (dh 200001 2) (apu_es (Pub 200001)) (Tup [])) built_cek)]
+       (Tup []) (Bytes 77) (Junk 0) (Junk 0)).
+Definition built_apu : jwe :=
+  reenc_jwe built_cek 888
+    (mkjwe (Some (mkphdr (Some A256CBC512) None (Some ES_A256KW) (Some (KDidKey 2)) (Some (Pub 200000))
+                         (Some (t_kref (KDidKey 1))) None 0))
+       [mkrcp None (Wrap (kek_es ES_A256KW (dh 200000 2) (t_kref (KDidKey 1)) (Tup [])) built_cek)]
+       (Tup []) (Bytes 77) (Junk 0) (Junk 0)).
+Example built_envelopes_nonvacuous :
+  wf_jwe (fun k => 200000 <=? k) [] built_mixed /\ wf_jwe (fun k => 200000 <=? k) [] built_apu /\
+  unpack Fixed JweAuth [2] (WJwe built_mixed) = Err EInvalid /\
+  unpack_pkgr Fixed [2] (WJwe built_mixed) = Err EInvalid /\
+  unpack Fixed JweAuth [2] (WJwe built_apu) = Ok (Bytes 888, None, 2).
+Proof.
+  split; [|split; [|repeat split; vm_compute; reflexivity]].
+  - unfold wf_jwe. cbn. apply Forall_cons; [|apply Forall_cons; [|apply Forall_nil]];
+      right; right; right; eexists; eexists; (split; [reflexivity|vm_compute; reflexivity]).
+  - unfold wf_jwe. cbn. apply Forall_cons; [|apply Forall_nil].
+    right; right; right; eexists; eexists; (split; [reflexivity|vm_compute; reflexivity]).
+Qed.
